@@ -1,5 +1,6 @@
 import BeffVerif.Props.C02
 import BeffVerif.Props.C02Sound
+import BeffVerif.Props.C02Complete
 open BeffVerif.C02
 #print axioms valid_type_only
 #print axioms typeof_exact
@@ -24,3 +25,11 @@ open BeffVerif.C02
 #print axioms BeffVerif.C02F.schema_sound_frag
 #print axioms BeffVerif.C02F.validate_frag_no_throw
 #print axioms BeffVerif.C02F.fragment_example
+#print axioms BeffVerif.C02F.rnb_def
+#print axioms BeffVerif.C02F.total_core
+#print axioms BeffVerif.C02F.validate_frag_stable
+#print axioms BeffVerif.C02F.complete_core
+#print axioms BeffVerif.C02F.schema_complete_frag
+#print axioms BeffVerif.C02F.schema_total_frag
+#print axioms BeffVerif.C02F.schema_exact_frag
+#print axioms BeffVerif.C02F.fragment_example_converse
